@@ -7,6 +7,7 @@ import (
 	"hash/fnv"
 	"math"
 	"math/rand"
+	"os"
 	"regexp"
 	"runtime/debug"
 	"strconv"
@@ -1220,6 +1221,9 @@ func checkC17(c *Ctx) {
 		t0 = time.Now()
 	}
 
+	// development only: VERIF_C17_ONLY=live,grow runs just the named families
+	only := os.Getenv("VERIF_C17_ONLY")
+	want := func(name string) bool { return only == "" || strings.Contains(","+only+",", ","+name+",") }
 	nonTerm := &c17NonTerm{}
 	// verdict for one executed print job
 	judge := func(fam string, j *Job, r Result, in *c17Inst, toks []string, js []c17Val, key string, nontrivial bool) {
@@ -1315,27 +1319,37 @@ func checkC17(c *Ctx) {
 		st.Wait()
 	}
 	maxC, maxS := 3, 2
-	runHeaps("heap", cfgText("INIT Init", "NEXT Next", "CONSTANTS", fmt.Sprintf("MaxC = %d", maxC), fmt.Sprintf("MaxS = %d", maxS),
-		`Classes = {"s", "n", "l"}`, `ArgMode = "root"`, "MaxArgs = 1", "INVARIANT Laws", "INVARIANT VecPrint", "CHECK_DEADLOCK FALSE"), 9000)
-	if c.Thorough() {
-		// every cycle / sharing shape of 4 containers: slots hold references only (188,000 heaps up to renaming)
-		runHeaps("shapes4", cfgText("INIT Init", "NEXT Next", "CONSTANTS", "MaxC = 4", "MaxS = 2",
-			`Classes = {}`, `ArgMode = "root"`, "MaxArgs = 1", "INVARIANT Laws", "INVARIANT VecPrint", "CHECK_DEADLOCK FALSE"), 40000)
+	if want("heaps") {
+		runHeaps("heap", cfgText("INIT Init", "NEXT Next", "CONSTANTS", fmt.Sprintf("MaxC = %d", maxC), fmt.Sprintf("MaxS = %d", maxS),
+			`Classes = {"s", "n", "l"}`, `ArgMode = "root"`, "MaxArgs = 1", "INVARIANT Laws", "INVARIANT VecPrint", "CHECK_DEADLOCK FALSE"), 9000)
+		if c.Thorough() {
+			// every cycle / sharing shape of 4 containers: slots hold references only (188,000 heaps up to renaming)
+			runHeaps("shapes4", cfgText("INIT Init", "NEXT Next", "CONSTANTS", "MaxC = 4", "MaxS = 2",
+				`Classes = {}`, `ArgMode = "root"`, "MaxArgs = 1", "INVARIANT Laws", "INVARIANT VecPrint", "CHECK_DEADLOCK FALSE"), 40000)
+		}
 	}
 	phase("heaps")
 	lS := 1
 	if c.Thorough() {
 		lS = 2
 	}
-	runHeaps("args", cfgText("INIT Init", "NEXT Next", "CONSTANTS", "MaxC = 2", fmt.Sprintf("MaxS = %d", lS),
-		`Classes = {"s", "n", "l"}`, `ArgMode = "lists"`, "MaxArgs = 3", "INVARIANT Laws", "INVARIANT VecPrint", "CHECK_DEADLOCK FALSE"), 1500)
-
+	if want("args") {
+		runHeaps("args", cfgText("INIT Init", "NEXT Next", "CONSTANTS", "MaxC = 2", fmt.Sprintf("MaxS = %d", lS),
+			`Classes = {"s", "n", "l"}`, `ArgMode = "lists"`, "MaxArgs = 3", "INVARIANT Laws", "INVARIANT VecPrint", "CHECK_DEADLOCK FALSE"), 1500)
+	}
 	phase("arglists")
 	// ---- (A2b) the print statement as a unit: arguments with effects, errors, control signals (MC_PrintStmt)
-	c17PrintStmtFamily(c, pool, nonTerm)
+	if want("stmt") {
+		c17PrintStmtFamily(c, pool, nonTerm)
+	}
 	phase("print-stmt")
+	// ---- (A2d) a bare print / a rule without a body prints the CURRENT $ (MC_RenderLive)
+	if want("live") {
+		c17LiveFamily(c, pool, judge)
+	}
+	phase("live-dollar")
 	// ---- (A2c) arrays that share storage but differ in length / start (MC_RenderView)
-	if !c17Decided(c) {
+	if !c17Decided(c) && want("views") {
 		c.Assume("views (arrays that share storage but differ in length, MC_RenderView) exist only through C09's open finding alias-length; each vector first confirms by length() probes that the implementation realised the windows of the model, vectors whose probes differ are not compared")
 		var nReal, nUnreal int64
 		cfg, _ := c17ViewCfg(c.Thorough())
@@ -1380,57 +1394,64 @@ func checkC17(c *Ctx) {
 		c.Set("view_vectors_not_realised", nUnreal)
 	}
 	phase("views")
+	// ---- (A2e) an array and its pre-growth copy: shared cells, two arrays (MC_RenderGrow)
+	if !c17Decided(c) && want("grow") {
+		c17GrowFamily(c, pool, judge)
+	}
+	phase("grown-copy")
 	// ---- (A3) documents as read: bare print in BEGINFILE, and a rule without a body
 	w3 := 1
 	if c.Thorough() {
 		w3 = 2
 	}
 	nd := 0
-	std := pool.NewStream(func(j *Job, r Result) {
-		var v c17DocVec
-		VecDecode([]byte(j.Tag), &v)
-		in := c17NewInst(c.Seed, []byte(j.Tag))
-		in.prealloc(v.Doc)
-		toks, fam := v.Out, "doc-bare-print"
-		js := []c17Val{v.Subs[0].Exp}
-		if j.N == 1 {
-			toks, fam = v.Rule, "doc-bodyless-rule"
-			if v.Doc.Kind == 'a' {
-				js = nil
-				for _, sb := range v.Subs[1:] {
-					js = append(js, sb.Exp)
+	if want("docs") {
+		std := pool.NewStream(func(j *Job, r Result) {
+			var v c17DocVec
+			VecDecode([]byte(j.Tag), &v)
+			in := c17NewInst(c.Seed, []byte(j.Tag))
+			in.prealloc(v.Doc)
+			toks, fam := v.Out, "doc-bare-print"
+			js := []c17Val{v.Subs[0].Exp}
+			if j.N == 1 {
+				toks, fam = v.Rule, "doc-bodyless-rule"
+				if v.Doc.Kind == 'a' {
+					js = nil
+					for _, sb := range v.Subs[1:] {
+						js = append(js, sb.Exp)
+					}
 				}
 			}
-		}
-		judge(fam, j, r, in, toks, js, fam+":"+j.Tag, v.Doc.Kind != 0)
-		nd++
-		if nd%5000 == 1 {
-			c.Sample(map[string]any{"family": fam, "program": string(j.Prog), "input": string(j.Files[0].Data), "stdout": c17Clip(r.Stdout)})
-		}
-	})
-	c.TLC(TLCOpt{Module: "MC_RenderDoc", Workers: 8, Heap: "6g",
-		Cfg: cfgText("INIT Init", "NEXT Next", "CONSTANTS", "W1 = 2", "W2 = 2", fmt.Sprintf("W3 = %d", w3), "INVARIANT Laws", "INVARIANT Vec", "CHECK_DEADLOCK FALSE"),
-		OnVec: func(raw []byte) {
-			var v c17DocVec
-			VecDecode(raw, &v)
-			if c17Decided(c) {
-				return
+			judge(fam, j, r, in, toks, js, fam+":"+j.Tag, v.Doc.Kind != 0)
+			nd++
+			if nd%5000 == 1 {
+				c.Sample(map[string]any{"family": fam, "program": string(j.Prog), "input": string(j.Files[0].Data), "stdout": c17Clip(r.Stdout)})
 			}
-			in := c17NewInst(c.Seed, raw)
-			in.prealloc(v.Doc)
-			r := rand.New(rand.NewSource(c17Seed(c.Seed, raw, "doc")))
-			var doc bytes.Buffer
-			in.writeDoc(&doc, v.Doc, r)
-			bare := []string{"BEGINFILE { print }", "BEGINFILE { print; }", "BEGINFILE {\n print\n}"}[r.Intn(3)]
-			rule := []string{"true", "1", "!false", "1 # rule without a body\n"}[r.Intn(4)]
-			std.Submit(Job{Kind: "run", Prog: []byte(bare), Files: []FileIn{{Name: "in.json", Data: doc.Bytes()}}, Tag: string(raw), N: 0})
-			std.Submit(Job{Kind: "run", Prog: []byte(rule), Files: []FileIn{{Name: "in.json", Data: doc.Bytes()}}, Tag: string(raw), N: 1})
-		}})
-	std.Wait()
+		})
+		c.TLC(TLCOpt{Module: "MC_RenderDoc", Workers: 8, Heap: "6g",
+			Cfg: cfgText("INIT Init", "NEXT Next", "CONSTANTS", "W1 = 2", "W2 = 2", fmt.Sprintf("W3 = %d", w3), "INVARIANT Laws", "INVARIANT Vec", "CHECK_DEADLOCK FALSE"),
+			OnVec: func(raw []byte) {
+				var v c17DocVec
+				VecDecode(raw, &v)
+				if c17Decided(c) {
+					return
+				}
+				in := c17NewInst(c.Seed, raw)
+				in.prealloc(v.Doc)
+				r := rand.New(rand.NewSource(c17Seed(c.Seed, raw, "doc")))
+				var doc bytes.Buffer
+				in.writeDoc(&doc, v.Doc, r)
+				bare := []string{"BEGINFILE { print }", "BEGINFILE { print; }", "BEGINFILE {\n print\n}"}[r.Intn(3)]
+				rule := []string{"true", "1", "!false", "1 # rule without a body\n"}[r.Intn(4)]
+				std.Submit(Job{Kind: "run", Prog: []byte(bare), Files: []FileIn{{Name: "in.json", Data: doc.Bytes()}}, Tag: string(raw), N: 0})
+				std.Submit(Job{Kind: "run", Prog: []byte(rule), Files: []FileIn{{Name: "in.json", Data: doc.Bytes()}}, Tag: string(raw), N: 1})
+			}})
+		std.Wait()
+	}
 
 	phase("documents")
 	// ---- (A4) the number contract on the whole special pool, top level and nested
-	{
+	if want("numbers") {
 		var jobs []Job
 		var vals [][]float64
 		r := rand.New(rand.NewSource(c17Seed(c.Seed, nil, "numbers")))
@@ -1492,7 +1513,7 @@ func checkC17(c *Ctx) {
 
 	phase("numbers")
 	// ---- (A5) heaps of 4..40 containers, oracle = TLC (Trace_Render)
-	if !c17Decided(c) {
+	if !c17Decided(c) && want("medium") {
 		nMed := 150
 		if c.Thorough() {
 			nMed = 800
@@ -1522,7 +1543,7 @@ func checkC17(c *Ctx) {
 
 	phase("medium")
 	// ---- (B) termination at scale: random heaps of up to ~200 containers with back edges
-	if !c17Decided(c) {
+	if !c17Decided(c) && want("large") {
 		nLarge := 150
 		if c.Thorough() {
 			nLarge = 1500
